@@ -56,7 +56,7 @@ def build(schema, variant_null=False, fault=None):
             return (seed % 2) == 0
         if n == "ID":
             return f"{tname}{variant + 1}"
-        return "drop" if variant == 1 else f"custom:{fname}"
+        return f"custom:{fname}{variant or ''}"
 
     def value(t, tname, fname, variant, depth=0):
         if isinstance(t, NonNull):
@@ -114,6 +114,9 @@ def build(schema, variant_null=False, fault=None):
             d[fname] = {"__typename": "NoSuchType"}
         elif kind == "notlist":
             d[fname] = 42
+        elif kind == "unserializable":
+            # a value the custom scalar's output coercion maps to nothing
+            d[fname] = ["drop", d[fname][0]] if isinstance(d[fname], list) else "drop"
     roots = {}
     for op, rt in (("query", schema.query_type), ("mutation", schema.mutation_type), ("subscription", schema.subscription_type)):
         if rt is not None:
@@ -140,6 +143,8 @@ def fault_menu(schema):
                 kinds.append("badtype")
             if is_list:
                 kinds.append("notlist")
+            if isinstance(base, Scalar) and base.name not in ("Int", "Float", "String", "Boolean", "ID") and not f.args:
+                kinds.append("unserializable")
             for k in kinds:
                 out.append((t.name, fname, k))
     return out
